@@ -82,9 +82,9 @@ theorem gen_actions :
 
 /-- `goWeb`: dial, ONE `webConn.Write`, of exactly `data`, then the two `common.Copy` goroutines; it never writes to the peer -/
 theorem gen_goweb (n : Nat) :
-    goWebTargetWrites = 1 ∧ goWebShape = true ∧ goWebPeerWrites = 0 ∧
+    goWebTargetWrites = 1 ∧ goWebShape = true ∧ goWebPeerWrites = 0 ∧ goWebDeadlinesSet = 0 ∧
     (goWebWriteLo (n : Int)).toNat = 0 ∧ (goWebWriteHi (n : Int)).toNat = n := by
-  refine ⟨by decide, by decide, by decide, ?_, ?_⟩
+  refine ⟨by decide, by decide, by decide, by decide, ?_, ?_⟩
   · unfold goWebWriteLo; omega
   · unfold goWebWriteHi; omega
 
@@ -96,7 +96,7 @@ theorem gen_recover : recover_parseKeyShare = true ∧ recover_parseClientHello 
 
 theorem goWebWrite_id (data : Bytes) : goWebWrite data = data := by
   unfold goWebWrite
-  rw [(gen_goweb data.length).2.2.2.1, (gen_goweb data.length).2.2.2.2]
+  rw [(gen_goweb data.length).2.2.2.2.1, (gen_goweb data.length).2.2.2.2.2]
   simp
 
 /-! ## 2. The chunked model equals the flat specification -/
